@@ -1,8 +1,13 @@
 """property id -> harness modules (engine X: CrossHair) and z modules (engine Z: z3)"""
 PROPS = {
+    'C13': {'harness': ['harness/recipe_vars.py']},
+    'C02': {'z': [('z/digest.py', ['core-collision']), ('z/scripts.py', ['merge-scripts'])], 'harness': ['harness/recipe_vars.py']},
+    'C03': {'z': [('z/digest.py', ['noninterference', 'equivalence'])]},
+    'C07': {'z': [('z/digest.py', ['buildid-collision'])]},
     'C06': {'harness': ['harness/C06_sem.py']},
     'C09': {'harness': ['harness/C09_upload.py']},
     'C10': {'harness': ['harness/C10_state.py']},
+    'C11': {'harness': ['harness/C11_dirhash.py']},
     'C15': {'harness': ['harness/C15_share.py']},
     'C17': {'harness': ['harness/C17_subst.py']},
 }
